@@ -288,6 +288,20 @@ pub fn v1_cases(thorough: bool) -> Vec<Vec<u8>> {
             }
         }
     }
+    // the byte after the CR corrupted on UNKNOWN lines whose text ends in every ASCII byte value, at every alignment of
+    // the CR within an 8-byte word (a scanner that works a word at a time misplaces the CR after particular bytes)
+    for b in (1u8..=127).filter(|b| *b != b'\r') {
+        for pad in 0..8usize {
+            let mut body = s("PROXY UNKNOWN ");
+            body.extend(std::iter::repeat(b'p').take(pad));
+            body.push(b);
+            for follow in [&b"X"[..], b"\r", b"\0"] {
+                for tr in [&b""[..], b"XXXXXXXXX"] {
+                    push(&mut cases, E_AFTER_CR, [body.as_slice(), b"\r", follow, tr].concat());
+                }
+            }
+        }
+    }
     // over-long lines: everything valid except the length (108..=112 bytes including CRLF; 200)
     for total in [108usize, 109, 110, 111, 112, 200] {
         for pad in [b'p', b' ', b'1'] {
